@@ -176,7 +176,7 @@ func vpC07ParseResponses(out []byte) (codes []int, bodies [][]byte, err error) {
 
 func TestVP_C07_ServerBodyLimit(t *testing.T) {
 	rapid.Check(t, func(t *rapid.T) {
-		L := vpC07GenLimit(t, vpScale(64*1024, 1024*1024))
+		L := vpC07GenLimit(t, vpScale(64*1024, 256*1024))
 		size, rel := vpC07GenSize(t, L)
 		rbs := rapid.SampledFrom([]int{4096, 4096, 256, 512, 1024, 8192, 300}).Draw(t, "rbs")
 		framing := rapid.SampledFrom([]string{"fixed", "chunked", "chunked", "fixed-unsent", "chunked-unsent"}).Draw(t, "framing")
@@ -472,7 +472,7 @@ func TestVP_C07_ServerHeadLimit(t *testing.T) {
 
 func TestVP_C07_ClientBodyLimit(t *testing.T) {
 	rapid.Check(t, func(t *rapid.T) {
-		L := vpC07GenLimit(t, vpScale(64*1024, 1024*1024))
+		L := vpC07GenLimit(t, vpScale(64*1024, 256*1024))
 		size, rel := vpC07GenSize(t, L)
 		framing := rapid.SampledFrom([]string{"fixed", "chunked", "chunked", "identity", "fixed-unsent", "chunked-unsent"}).Draw(t, "framing")
 		rbs := rapid.SampledFrom([]int{4096, 4096, 256, 1024, 8192}).Draw(t, "rbs")
